@@ -12,6 +12,54 @@ FID = 'crates/emmylua_code_analysis/src/vfs/file_id.rs'
 # ---------------------------------------------------------------------------------------------
 # rewrite rules of this unit
 # ---------------------------------------------------------------------------------------------
+def _recv_before(text, toks, i):
+    """toks[i] is a method name preceded by `.`: index of the token in front of the receiver's postfix chain
+    (identifiers, field accesses, calls, indexing, `?`, paths); statement keywords end the chain"""
+    j = i - 2
+    while j >= 0:
+        tt = L.tok_text(text, toks[j])
+        if tt in (')', ']'):
+            depth = 0
+            while j >= 0:
+                c = L.tok_text(text, toks[j])
+                if c in (')', ']'): depth += 1
+                elif c in ('(', '['):
+                    depth -= 1
+                    if depth == 0: break
+                j -= 1
+            j -= 1; continue
+        if toks[j][0] in ('ident', 'num') or tt in ('.', '?'):
+            if toks[j][0] == 'ident' and tt in ('let', 'return', 'if', 'while', 'match', 'in', 'else'): break
+            j -= 1; continue
+        if tt == ':' and j >= 1 and L.tok_text(text, toks[j - 1]) == ':':
+            j -= 2; continue
+        break
+    return j
+
+
+@rule('option-copied')
+def option_copied(text, **_):
+    """O.copied() -> (match O { Some(x) => Some(*x), None => None })   (std definition of Option<&T>::copied, T: Copy:
+    `match self { Some(&v) => Some(v), None => None }`; the `&v` pattern is written as a dereference because Verus rejects
+    reference patterns). O is the whole postfix chain in front of `.copied()`; rustc type-checks that O is an Option<&T>."""
+    n = 0
+    while True:
+        toks = L.code_tokens(text)
+        hit = None
+        for i, t in enumerate(toks):
+            if L.tok_text(text, t) == 'copied' and i >= 1 and L.tok_text(text, toks[i - 1]) == '.' \
+                    and i + 2 < len(toks) and L.tok_text(text, toks[i + 1]) == '(' and L.tok_text(text, toks[i + 2]) == ')':
+                j = _recv_before(text, toks, i)
+                start = toks[j + 1][1]
+                recv = ' '.join(text[start:toks[i - 1][1]].split())
+                hit = (start, toks[i + 2][2], '(match %s { Some(__x) => Some(*__x), None => None })' % recv)
+                break
+        if not hit: break
+        text = text[:hit[0]] + hit[2] + text[hit[1]:]
+        n += 1
+    return text, n
+
+
 @rule('option-map-match')
 def option_map_match(text, **_):
     """O.map(|x| B) -> (match O { Some(x) => Some(B), None => None });
@@ -45,26 +93,7 @@ def option_map_match(text, **_):
                     tq = L.tok_text(text, toks[q])
                     if (toks[q][0] == 'ident' and tq in ('return', 'break', 'continue', 'await')) or tq == '?':
                         raise Undecided('option-map-match: closure body has non-local control flow')
-                # receiver: walk back over the postfix chain
-                j = i - 2
-                while j >= 0:
-                    tt = L.tok_text(text, toks[j])
-                    if tt in (')', ']'):
-                        depth = 0
-                        while j >= 0:
-                            c = L.tok_text(text, toks[j])
-                            if c in (')', ']'): depth += 1
-                            elif c in ('(', '['):
-                                depth -= 1
-                                if depth == 0: break
-                            j -= 1
-                        j -= 1; continue
-                    if toks[j][0] in ('ident', 'num') or tt in ('.', '?'):
-                        if toks[j][0] == 'ident' and tt in ('let', 'return', 'if', 'while', 'match', 'in', 'else'): break
-                        j -= 1; continue
-                    if tt == ':' and j >= 1 and L.tok_text(text, toks[j - 1]) == ':':
-                        j -= 2; continue
-                    break
+                j = _recv_before(text, toks, i)
                 start = toks[j + 1][1]
                 recv = ' '.join(text[start:toks[i - 1][1]].split())
                 if deref:
@@ -160,12 +189,16 @@ UNIT = {
             ensures='''
             vfs_ids_ok(final(self)) /*@C22.vfs.ids-ok-preserved*/,
             alloc_frame(old(self), final(self), r),
-            final(self).remote_file_id_map@ == old(self).remote_file_id_map@,
-            // a uri with a path gets the id recorded for the path (allocated now if there was none)
-            sp_uri_path(uri) matches Some(p) ==> final(self).file_id_map@.contains_key(p) && final(self).file_id_map@[p] == r.id,
+            // C10: the uri resolves to the returned id from now on (one id per uri, with or without a file path)
+            local_id(final(self), uri) == Some(r) /*@C10.vfs.submitted-uri-resolves-to-its-id*/,
+            // a uri with a path gets the id recorded for the path (allocated now if there was none); the remote/pathless table is untouched
+            sp_uri_path(uri) matches Some(p) ==> final(self).file_id_map@.contains_key(p) && final(self).file_id_map@[p] == r.id
+                && final(self).remote_file_id_map@ == old(self).remote_file_id_map@,
+            // a uri without a path gets the id recorded for the uri in `remote_file_id_map` (allocated now if there was none); the path tables are untouched
+            sp_uri_path(uri) is None ==> final(self).remote_file_id_map@.contains_key(*uri) && final(self).remote_file_id_map@[*uri] == r
+                && final(self).file_id_map@ == old(self).file_id_map@ && final(self).file_path_map@ == old(self).file_path_map@,
             local_id(old(self), uri) matches Some(f) ==> r == f && same_id_tables(old(self), final(self)) && final(self).file_data@ == old(self).file_data@,
-            local_id(old(self), uri) is None ==> r.id as int == old(self).file_data@.len(),
-            sp_uri_path(uri) is None ==> same_id_tables(old(self), final(self))'''),
+            local_id(old(self), uri) is None ==> r.id as int == old(self).file_data@.len()'''),
         'Vfs::virtual_file_id': vfs_fn(
             'virtual_file_id', ret='r',
             requires='keys_ok(), vfs_ids_ok(old(self)), old(self).file_data@.len() < u32::MAX',
@@ -178,9 +211,9 @@ UNIT = {
                 && final(self).remote_file_id_map@ == old(self).remote_file_id_map@ && final(self).file_data@ == old(self).file_data@,
             !old(self).remote_file_id_map@.contains_key(*uri) ==> r.id as int == old(self).file_data@.len()'''),
         'Vfs::get_file_id': vfs_fn(
-            'get_file_id', ret='r', rules=['option-map-match'],
+            'get_file_id', ret='r', rules=[('option-copied', {'optional': True}), 'option-map-match'],
             requires='keys_ok()',
-            ensures='r == local_id(self, uri)'),
+            ensures='r == local_id(self, uri) /*@C10.vfs.get-file-id-resolves-uri*/'),
         'Vfs::get_uri': vfs_fn(
             'get_uri', ret='r', requires='keys_ok()',
             ensures='r == (if self.file_path_map@.contains_key(id.id) { sp_path_uri(&self.file_path_map@[id.id]) } else { None })'),
@@ -192,9 +225,14 @@ UNIT = {
             'set_file_content', ret='r', rules=['drop-log', 'option-map-match'],
             requires=SET_REQ,
             ensures=set_content_ensures('false') + '''
-            final(self).remote_file_id_map@ == old(self).remote_file_id_map@,
-            sp_uri_path(uri) matches Some(p) ==> final(self).file_id_map@.contains_key(p) && final(self).file_id_map@[p] == r.id,
-            local_id(old(self), uri) matches Some(f) ==> r == f''',
+            // C10: a submitted document must stay addressable by its uri, otherwise it can never be removed again
+            // (and a re-submission would create a second copy)
+            local_id(final(self), uri) == Some(r) /*@C10.vfs.submitted-uri-resolves-to-its-id*/,
+            local_id(old(self), uri) matches Some(f) ==> r == f,
+            sp_uri_path(uri) matches Some(p) ==> final(self).file_id_map@.contains_key(p) && final(self).file_id_map@[p] == r.id
+                && final(self).remote_file_id_map@ == old(self).remote_file_id_map@,
+            sp_uri_path(uri) is None ==> final(self).remote_file_id_map@.contains_key(*uri) && final(self).remote_file_id_map@[*uri] == r
+                && final(self).file_id_map@ == old(self).file_id_map@ && final(self).file_path_map@ == old(self).file_path_map@''',
             proof=[(r'let fid = self\.file_id\(uri\);', 'after', SET_PROOF_ALLOC), (r'\n\s*fid\n', 'before', SET_PROOF_END)]),
         'Vfs::set_remote_file_content': vfs_fn(
             'set_remote_file_content', ret='r', rules=['drop-log', 'option-map-match'],
@@ -216,24 +254,31 @@ UNIT = {
             // no text, no line index, no tree
             r matches Some(f) ==> ({
                 &&& !final(self).file_path_map@.contains_key(f.id)
-                &&& !final(self).file_id_map@.contains_key(sp_uri_path(uri)->0)
+                &&& (sp_uri_path(uri) matches Some(p) ==> !final(self).file_id_map@.contains_key(p))
                 &&& (forall|q: PathBuf| #[trigger] final(self).file_id_map@.contains_key(q) ==> final(self).file_id_map@[q] != f.id)
                 &&& (f.id as int) < final(self).file_data@.len() && final(self).file_data@[f.id as int] is None
                 &&& !final(self).line_index_map@.contains_key(f)
                 &&& !final(self).tree_map@.contains_key(f)
+                // after the removal the uri no longer resolves -- with or without a file path
                 &&& local_id(final(self), uri) is None
             }) /*@C10.vfs.removed-file-leaves-no-entry*/,
             // frame: nothing else changed
             r matches Some(f) ==> ({
-                &&& final(self).file_path_map@ =~= old(self).file_path_map@.remove(f.id)
-                &&& final(self).file_id_map@ =~= old(self).file_id_map@.remove(sp_uri_path(uri)->0)
+                &&& (sp_uri_path(uri) matches Some(p) ==> final(self).file_path_map@ =~= old(self).file_path_map@.remove(f.id)
+                        && final(self).file_id_map@ =~= old(self).file_id_map@.remove(p))
+                &&& (sp_uri_path(uri) is None ==> final(self).file_path_map@ =~= old(self).file_path_map@
+                        && final(self).file_id_map@ =~= old(self).file_id_map@)
+                // the uri table loses exactly `*uri` when the removed id had no path entry (a document without a file path),
+                // and is unchanged otherwise
+                &&& (sp_uri_path(uri) is Some ==> final(self).remote_file_id_map@ =~= old(self).remote_file_id_map@)
+                &&& (sp_uri_path(uri) is None ==> final(self).remote_file_id_map@ =~= old(self).remote_file_id_map@.remove(*uri))
                 &&& final(self).file_data@ =~= old(self).file_data@.update(f.id as int, None)
                 &&& final(self).line_index_map@ =~= old(self).line_index_map@.remove(f)
                 &&& final(self).tree_map@ =~= old(self).tree_map@.remove(f)
             }) /*@C10.vfs.remove-frame*/,
             r is None ==> same_id_tables(old(self), final(self)) && same_file_tables(old(self), final(self)),
-            // NOT cleaned: the remote-uri table (remote files cannot be removed through remove_file)
-            final(self).remote_file_id_map@ == old(self).remote_file_id_map@,
+            // NOT cleaned: a REMOTE file registered (set_remote_file_content) under a uri that has a file path keeps its
+            // remote_file_id_map entry -- remove_file resolves such a uri through file_id_map only
             final(self).emmyrc == old(self).emmyrc'''),
         'Vfs::update_config': vfs_fn(
             'update_config',
@@ -264,11 +309,12 @@ UNIT = {
             vfs_wf(self) ==> (r is Some <==> self.file_path_map@.contains_key(id.id) && has_content(self, *id)) /*@C22.vfs.document-exists-iff-wf*/'''),
         'Vfs::get_syntax_tree': vfs_fn(
             'get_syntax_tree', ret='r', requires='keys_ok()',
-            ensures='''r matches Some(t) ==> self.tree_map@.contains_key(*id) && *t == self.tree_map@[*id] /*@C22.vfs.syntax-tree-is-the-files-entry*/,
-            r is None ==> !self.tree_map@.contains_key(*id) /*@C22.vfs.syntax-tree-is-the-files-entry*/,
+            ensures='''
             // under the representation invariant: a tree is handed out exactly for the files that have a text, and it is a parse of THAT text
+            vfs_wf(self) ==> (r matches Some(t) ==> tree_of_text(*t, content_of(self, *id))) /*@C22.vfs.tree-is-parse-of-current-text*/,
             vfs_wf(self) ==> (r is Some <==> has_content(self, *id)),
-            vfs_wf(self) ==> (r matches Some(t) ==> tree_of_text(*t, content_of(self, *id))) /*@C22.vfs.tree-is-parse-of-current-text*/'''),
+            r matches Some(t) ==> self.tree_map@.contains_key(*id) && *t == self.tree_map@[*id] /*@C22.vfs.syntax-tree-is-the-files-entry*/,
+            r is None ==> !self.tree_map@.contains_key(*id) /*@C22.vfs.syntax-tree-is-the-files-entry*/'''),
         'Vfs::get_file_parse_error': vfs_fn(
             'get_file_parse_error', ret='r', requires='keys_ok()', rules=['slice-to-vec'],
             ensures='''r is Some ==> self.tree_map@.contains_key(*id) && sp_tree_errors(&self.tree_map@[*id]).len() > 0,
@@ -285,7 +331,7 @@ UNIT = {
             (forall|u: Uri| !old(self).remote_file_id_map@.contains_key(u)) ==> vfs_ids_ok(final(self))'''),
     },
     'allow': [r'external_body', r'uninterp spec fn sp_'],
-    'min_obligations': 16,
+    'min_obligations': 20,
     'trusted': [
         'hashbrown::HashMap -> std::collections::HashMap (same API subset: new/get/insert/remove/clear; iteration order never relied on)',
         'opaque shims: lsp_types::Uri, std::path::PathBuf, rowan::NodeCache, emmylua_parser::{LineIndex, LuaSyntaxTree, LuaParseError, ParserConfig}, crate::Emmyrc',
@@ -309,7 +355,8 @@ UNIT = {
     'samples': [
         'set_file_content(uri, Some(t)): line_index_map[fid] == sp_line_index(t@) and tree_map[fid] == sp_tree(t@, sp_cfg(current emmyrc)) -- unconditionally, also for an unchanged text',
         'get_document(id) == Some(d) ==> d.text@ is the stored text of id and *d.line_index == line_index_map[id]; under vfs_wf: *d.line_index == sp_line_index(d.text@)',
-        'remove_file(uri) == Some(f) ==> f is absent from file_path_map, line_index_map, tree_map; file_data[f] is None; no path maps to f any more',
+        'file_id / set_file_content(uri, ..) == r ==> get_file_id(uri) == Some(r) afterwards, for a uri with a path (file_id_map) and for one without (remote_file_id_map)',
+        'remove_file(uri) == Some(f) ==> f is absent from file_path_map, line_index_map, tree_map; file_data[f] is None; no path maps to f any more; get_file_id(uri) is None afterwards (also for a uri without a file path)',
         'update_config: every table unchanged (trees stay parsed under the previous configuration until the text is re-submitted)',
     ],
     'mutants': [
@@ -319,6 +366,14 @@ UNIT = {
          'repl': 'let fid = self.file_id(uri);\n        if let Some(new_text) = &data { if let Some(old_c) = &self.file_data[fid.id as usize] '
                  '{ if !old_c.is_remote && old_c.content == *new_text { proof { assert(has_content(self, fid) && content_of(self, fid) == new_text@); } return fid; } } }',
          'expect': r'C09\.vfs\.tree-is-parse-under-current-config'},
+        # the defect repaired in /repo: a uri without a file path got a fresh, unrecorded id on every call
+        {'name': 'pathless-uri-gets-fresh-id', 'item': 'Vfs::file_id',
+         'pattern': r'return self\.virtual_file_id\(uri\);',
+         'repl': 'let id = self.file_data.len() as u32; self.file_data.push(None); return FileId { id };',
+         'expect': r'C10\.vfs\.submitted-uri-resolves-to-its-id'},
+        {'name': 'get-file-id-ignores-pathless-uris', 'item': 'Vfs::get_file_id',
+         'pattern': r'return self\.remote_file_id_map\.get\(uri\)\.copied\(\);', 'repl': 'return None;',
+         'expect': r'C10\.vfs\.get-file-id-resolves-uri'},
         {'name': 'line-index-under-wrong-id', 'item': 'Vfs::set_file_content',
          'pattern': r'self\.line_index_map\.insert\(fid, line_index\);', 'repl': 'self.line_index_map.insert(FileId { id: 0 }, line_index);',
          'expect': r'C22\.vfs\.line-index-is-parse-of-text'},
@@ -336,6 +391,9 @@ UNIT = {
          'expect': r'C10\.vfs\.removed-file-leaves-no-entry'},
         {'name': 'remove-file-keeps-text', 'item': 'Vfs::remove_file',
          'pattern': r'data\.take\(\);', 'repl': '',
+         'expect': r'C10\.vfs\.removed-file-leaves-no-entry'},
+        {'name': 'remove-file-keeps-pathless-uri-entry', 'item': 'Vfs::remove_file',
+         'pattern': r'\} else \{\s*(?://[^\n]*\n\s*)*self\.remote_file_id_map\.remove\(uri\);\s*\}', 'repl': '}',
          'expect': r'C10\.vfs\.removed-file-leaves-no-entry'},
         {'name': 'remove-file-keeps-path-to-id', 'item': 'Vfs::remove_file',
          'pattern': r'self\.file_id_map\.remove\(&path\);', 'repl': '',
